@@ -17,11 +17,11 @@ def si(bps=16, channels=2, rate=44100, total=1000, minfs=0, maxfs=0, minbs=4096,
             "total": HL(total), "md5": md5 or [0] * 16}
 
 
-def cue_block(rnd, ntracks, nidx, gap, pregap=False, catalog=True, cdda=True, first_index0_256=False):
+def cue_block(rnd, ntracks, nidx, gap, pregap=False, catalog=True, cdda=True, first_index0_256=False, catalog_len=13, isrc_tail=5):
     """abstract CUESHEET value + the text that builds it through Cuesheet::parse"""
     unit = 588 if cdda else 1
     lines = []
-    cat = "".join(rnd.choice("0123456789") for _ in range(13)) if catalog else ""
+    cat = "".join(rnd.choice("0123456789") for _ in range(catalog_len)) if catalog else ""
     if catalog:
         lines.append("CATALOG " + cat)
     tracks = []
@@ -29,8 +29,8 @@ def cue_block(rnd, ntracks, nidx, gap, pregap=False, catalog=True, cdda=True, fi
     for k in range(1, ntracks + 1):
         lines.append("  TRACK %02d AUDIO" % k)
         isrc = ""
-        if rnd.random() < 0.4:
-            isrc = "US" + "ABC" + "%02d" % rnd.randint(0, 99) + "%05d" % rnd.randint(0, 99999)
+        if rnd.random() < 0.4 or isrc_tail != 5:
+            isrc = "US" + "ABC" + "%02d" % rnd.randint(0, 99) + ("%020d" % rnd.randint(0, 10 ** 12))[20 - isrc_tail:]
             lines.append("    ISRC " + isrc)
         pre = rnd.random() < 0.3
         if pre:
@@ -115,6 +115,12 @@ def c11_items(t, rnd):
         add("cuesheet-cdda", [si(), cue_block(rnd, nt, ni, gap, pregap=pg)])
     for (nt, ni, gap, pg) in ((1, 1, 5, False), (2, 3, 1000, True), (254, 1, 7, False), (1, 254, 3, False), (1, 255, 1, True)):
         add("cuesheet-noncdda", [si(), cue_block(rnd, nt, ni, gap, pregap=pg, cdda=False, catalog=False)])
+    # field widths: the binary catalog field holds 128 digits, the ISRC field 12 characters - values of other lengths must either be
+    # refused when the block is built / written, or read back as they were
+    for n in (1, 12, 14, 127, 128, 129, 130, 200):
+        add("cuesheet-noncdda-catalog-%d" % n, [si(), cue_block(rnd, 2, 2, 100, cdda=False, catalog=True, catalog_len=n)])
+    for tail in (0, 2, 4, 6, 10):
+        add("cuesheet-isrc-%d" % (7 + tail), [si(), cue_block(rnd, 2, 1, 100, cdda=rnd.random() < 0.5, catalog=False, isrc_tail=tail)])
     add("cuesheet-noncdda-256-indices", [si(), cue_block(rnd, 1, 256, 1, cdda=False, catalog=False, first_index0_256=True)])
     # lists breaking the single-instance rules
     vc = {"kind": "comment", "vendor": B("v"), "fields": []}
